@@ -126,4 +126,80 @@ theorem src_traits_rs_fn_quarter : C08_src_traits_rs_fn_quarter =
 theorem src_traits_rs_fn_year_ce : C08_src_traits_rs_fn_year_ce =
     ["&", "self", "->", "bool", "u32", "v1", "self", "year(", "if", "v1", "<", "1", "false", "1", "-", "v1", "as", "u32", "else", "true", "v1", "as", "u32"] := by decide +kernel
 
+/-- callee src/month.rs:fn from_u32 -/
+theorem callee_src_month_rs_fn_from_u32 : C08_callee_src_month_rs_fn_from_u32 =
+    ["v1", "u32", "->", "Option", "<", "Month", ">", "match", "v1", "1", "=>", "Some(", "Month", "January", "2", "=>", "Some(", "Month", "February", "3", "=>", "Some(", "Month", "March", "4", "=>", "Some(", "Month", "April", "5", "=>", "Some(", "Month", "May", "6", "=>", "Some(", "Month", "June", "7", "=>", "Some(", "Month", "July", "8", "=>", "Some(", "Month", "August", "9", "=>", "Some(", "Month", "September", "10", "=>", "Some(", "Month", "October", "11", "=>", "Some(", "Month", "November", "12", "=>", "Some(", "Month", "December", "v2", "=>", "None"] := by decide +kernel
+
+/-- callee src/naive/date/mod.rs:fn add_days -/
+theorem callee_src_naive_date_mod_rs_fn_add_days : C08_callee_src_naive_date_mod_rs_fn_add_days =
+    ["self", "v1", "i32", "->", "Option", "<", "Self", ">", "ORDINAL_MASK", "i32", "8176", "if", "Some(", "v2", "self", "yof(", "&", "ORDINAL_MASK", ">>", "4", "checked_add(", "v1", "if", "v2", ">", "0", "&&", "v2", "<=", "365", "+", "self", "leap_year(", "as", "i32", "v3", "self", "yof(", "&", "!", "ORDINAL_MASK", "return", "Some(", "NaiveDate", "from_yof(", "v3", "|", "v2", "<<", "4", "v4", "self", "year(", "let(", "v5", "v6", "div_mod_floor(", "v4", "400", "v7", "yo_to_cycle(", "v6", "as", "u32", "self", "ordinal(", "v7", "try_opt!(", "v7", "as", "i32", "checked_add(", "v1", "let(", "v8", "v7", "div_mod_floor(", "v7", "146097", "v5", "+=", "v8", "let(", "v6", "v2", "cycle_to_yo(", "v7", "as", "u32", "v9", "YearFlags", "from_year_mod_400(", "v6", "as", "i32", "NaiveDate", "from_ordinal_and_flags(", "v5", "*", "400", "+", "v6", "as", "i32", "v2", "v9"] := by decide +kernel
+
+/-- callee src/naive/date/mod.rs:fn cycle_to_yo -/
+theorem callee_src_naive_date_mod_rs_fn_cycle_to_yo : C08_callee_src_naive_date_mod_rs_fn_cycle_to_yo =
+    ["v1", "u32", "->", "u32", "u32", "v2", "v1", "/", "365", "v3", "v1", "%", "365", "v4", "YEAR_DELTAS", "v2", "as", "usize", "as", "u32", "if", "v3", "<", "v4", "v2", "-=", "1", "v3", "+=", "365", "-", "YEAR_DELTAS", "v2", "as", "usize", "as", "u32", "else", "v3", "-=", "v4", "v2", "v3", "+", "1"] := by decide +kernel
+
+/-- callee src/naive/date/mod.rs:fn div_mod_floor -/
+theorem callee_src_naive_date_mod_rs_fn_div_mod_floor : C08_callee_src_naive_date_mod_rs_fn_div_mod_floor =
+    ["v1", "i32", "v2", "i32", "->", "i32", "i32", "v1", "div_euclid(", "v2", "v1", "rem_euclid(", "v2"] := by decide +kernel
+
+/-- callee src/naive/date/mod.rs:fn from_mdf -/
+theorem callee_src_naive_date_mod_rs_fn_from_mdf : C08_callee_src_naive_date_mod_rs_fn_from_mdf =
+    ["v1", "i32", "v2", "Mdf", "->", "Option", "<", "NaiveDate", ">", "if", "v1", "<", "MIN_YEAR", "||", "v1", ">", "MAX_YEAR", "return", "None", "Some(", "NaiveDate", "from_yof(", "v1", "<<", "13", "|", "try_opt!(", "v2", "ordinal_and_flags("] := by decide +kernel
+
+/-- callee src/naive/date/mod.rs:fn from_ordinal_and_flags -/
+theorem callee_src_naive_date_mod_rs_fn_from_ordinal_and_flags : C08_callee_src_naive_date_mod_rs_fn_from_ordinal_and_flags =
+    ["v1", "i32", "v2", "u32", "v3", "YearFlags", "->", "Option", "<", "NaiveDate", ">", "if", "v1", "<", "MIN_YEAR", "||", "v1", ">", "MAX_YEAR", "return", "None", "if", "v2", "==", "0", "||", "v2", ">", "366", "return", "None", "debug_assert!(", "YearFlags", "from_year(", "v1", "==", "v3", "v4", "v1", "<<", "13", "|", "v2", "<<", "4", "as", "i32", "|", "v3", "as", "i32", "match", "v4", "&", "OL_MASK", "<=", "MAX_OL", "true", "=>", "Some(", "NaiveDate", "from_yof(", "v4", "false", "=>", "None"] := by decide +kernel
+
+/-- callee src/naive/date/mod.rs:fn from_ymd_opt -/
+theorem callee_src_naive_date_mod_rs_fn_from_ymd_opt : C08_callee_src_naive_date_mod_rs_fn_from_ymd_opt =
+    ["v1", "i32", "v2", "u32", "v3", "u32", "->", "Option", "<", "NaiveDate", ">", "v4", "YearFlags", "from_year(", "v1", "if", "Some(", "v5", "Mdf", "new(", "v2", "v3", "v4", "NaiveDate", "from_mdf(", "v1", "v5", "else", "None"] := by decide +kernel
+
+/-- callee src/naive/date/mod.rs:fn leap_year -/
+theorem callee_src_naive_date_mod_rs_fn_leap_year : C08_callee_src_naive_date_mod_rs_fn_leap_year =
+    ["&", "self", "->", "bool", "self", "yof(", "&", "8", "==", "0"] := by decide +kernel
+
+/-- callee src/naive/date/mod.rs:fn mdf -/
+theorem callee_src_naive_date_mod_rs_fn_mdf : C08_callee_src_naive_date_mod_rs_fn_mdf =
+    ["&", "self", "->", "Mdf", "Mdf", "from_ol(", "self", "yof(", "&", "OL_MASK", ">>", "3", "self", "year_flags("] := by decide +kernel
+
+/-- callee src/naive/date/mod.rs:fn yo_to_cycle -/
+theorem callee_src_naive_date_mod_rs_fn_yo_to_cycle : C08_callee_src_naive_date_mod_rs_fn_yo_to_cycle =
+    ["v1", "u32", "v2", "u32", "->", "u32", "v1", "*", "365", "+", "YEAR_DELTAS", "v1", "as", "usize", "as", "u32", "+", "v2", "-", "1"] := by decide +kernel
+
+/-- callee src/naive/date/mod.rs:fn yof -/
+theorem callee_src_naive_date_mod_rs_fn_yof : C08_callee_src_naive_date_mod_rs_fn_yof =
+    ["&", "self", "->", "i32", "self", "v1", "get("] := by decide +kernel
+
+/-- callee src/naive/internals.rs:fn from_ol -/
+theorem callee_src_naive_internals_rs_fn_from_ol : C08_callee_src_naive_internals_rs_fn_from_ol =
+    ["v1", "i32", "YearFlags(", "v2", "YearFlags", "->", "Mdf", "debug_assert!(", "v1", ">", "1", "&&", "v1", "<=", "MAX_OL", "as", "i32", "Mdf(", "v1", "as", "u32", "+", "OL_TO_MDL", "v1", "as", "usize", "as", "u32", "<<", "3", "|", "v2", "as", "u32"] := by decide +kernel
+
+/-- callee src/naive/internals.rs:fn from_year -/
+theorem callee_src_naive_internals_rs_fn_from_year : C08_callee_src_naive_internals_rs_fn_from_year =
+    ["v1", "i32", "->", "YearFlags", "v1", "v1", "rem_euclid(", "400", "YearFlags", "from_year_mod_400(", "v1"] := by decide +kernel
+
+/-- callee src/naive/internals.rs:fn from_year_mod_400 -/
+theorem callee_src_naive_internals_rs_fn_from_year_mod_400 : C08_callee_src_naive_internals_rs_fn_from_year_mod_400 =
+    ["v1", "i32", "->", "YearFlags", "YEAR_TO_FLAGS", "v1", "as", "usize"] := by decide +kernel
+
+/-- callee src/naive/internals.rs:fn ndays -/
+theorem callee_src_naive_internals_rs_fn_ndays : C08_callee_src_naive_internals_rs_fn_ndays =
+    ["&", "self", "->", "u32", "YearFlags(", "v1", "*", "self", "366", "-", "v1", ">>", "3", "as", "u32"] := by decide +kernel
+
+/-- callee src/naive/internals.rs:fn ordinal_and_flags -/
+theorem callee_src_naive_internals_rs_fn_ordinal_and_flags : C08_callee_src_naive_internals_rs_fn_ordinal_and_flags =
+    ["&", "self", "->", "Option", "<", "i32", ">", "v1", "self", ">>", "3", "match", "MDL_TO_OL", "v1", "as", "usize", "XX", "=>", "None", "v2", "=>", "Some(", "self", "as", "i32", "-", "v2", "as", "i32", "<<", "3"] := by decide +kernel
+
+/-- callee src/weekday.rs:fn days_since -/
+theorem callee_src_weekday_rs_fn_days_since : C08_callee_src_weekday_rs_fn_days_since =
+    ["&", "self", "v1", "Weekday", "->", "u32", "v2", "*", "self", "as", "u32", "v3", "v1", "as", "u32", "if", "v2", "<", "v3", "7", "+", "v2", "-", "v3", "else", "v2", "-", "v3"] := by decide +kernel
+
+/-- callee src/weekday.rs:fn num_days_from_monday -/
+theorem callee_src_weekday_rs_fn_num_days_from_monday : C08_callee_src_weekday_rs_fn_num_days_from_monday =
+    ["&", "self", "->", "u32", "self", "days_since(", "Weekday", "Mon"] := by decide +kernel
+
+/-- callee src/weekday.rs:fn number_from_monday -/
+theorem callee_src_weekday_rs_fn_number_from_monday : C08_callee_src_weekday_rs_fn_number_from_monday =
+    ["&", "self", "->", "u32", "self", "days_since(", "Weekday", "Mon", "+", "1"] := by decide +kernel
+
 end Chrono.Pins.C08
